@@ -32,6 +32,10 @@ class _Opaque:
     # recorder objects; a bare opaque is only compared for identity
 
 
+class _NativeCut(BaseException):
+    pass
+
+
 class NativeOutcome:
     def __init__(self, kind, value=None, exc=None):
         self.kind = kind
@@ -50,11 +54,24 @@ class NativeVC:
         self.model = model
         self.results = []  # (label, ok, detail)
         self._intern = {}
+        self._stash = {}
+        self._cut = None
 
     def _get(self, name):
         if name not in self.model:
             raise ReplayInvalid(f"model has no value for input {name!r}")
-        return self.model[name]
+        v = self.model[name]
+        if isinstance(v, str) and v.startswith("<unextractable"):
+            raise ReplayInvalid(f"input {name!r}: {v}")
+        return v
+
+    def _bytes(self, v):
+        if isinstance(v, dict):
+            b = bytearray([v["fill"]]) * v["len"]
+            for k, x in v["patch"].items():
+                b[int(k)] = x
+            return bytes(b)
+        return bytes.fromhex(v)
 
     # ---- inputs
     def int(self, name, lo=None, hi=None):
@@ -72,11 +89,13 @@ class NativeVC:
     def choice(self, name, options):
         return list(options)[int(self._get(name))]
 
-    def bytes(self, name, minlen=0, maxlen=None):
-        return bytes.fromhex(self._get(name))
+    def bytes(self, name, minlen=0, maxlen=None, native_from=None, hint=None):
+        if native_from is not None and native_from in self.model:
+            return self._bytes(self._get(native_from))
+        return self._bytes(self._get(name))
 
     def bytes_fixed(self, name, n):
-        return bytes.fromhex(self._get(name))
+        return self._bytes(self._get(name))
 
     def opaque(self, name, tag="obj"):
         return self._mk_opaque(tag, self._get(name))
@@ -156,9 +175,86 @@ class NativeVC:
     def body(self, f):
         return f
 
+    def stash(self, name, value):
+        self._stash[name] = value
+
+    def stashed(self, name, native_default=None):
+        return self._stash.get(name, native_default)
+
+    def _record(self, obj, name, delegate):
+        calls = []
+
+        def rec(*a, **k):
+            calls.append(tuple(a) + tuple(k[x] for x in sorted(k)))
+            if delegate is None:
+                return None
+            return delegate(*a, **k)
+
+        setattr(obj, name, rec)
+        return calls
+
+    def stub(self, obj, name, fn=None):
+        return self._record(obj, name, fn)
+
+    def spy(self, obj, name):
+        return self._record(obj, name, getattr(obj, name))
+
+    def arm_cut(self, func, ordinal):
+        """stop the real loop #ordinal of func when its head is reached the second time"""
+        import ast
+        import inspect
+        import textwrap
+
+        f = getattr(func, "__func__", func)
+        f = inspect.unwrap(f)
+        src = textwrap.dedent(inspect.getsource(f))
+        tree = ast.parse(src)
+        loops = []
+
+        def visit(n, top=True):
+            for c in ast.iter_child_nodes(n):
+                if isinstance(c, (ast.FunctionDef, ast.AsyncFunctionDef, ast.Lambda, ast.ClassDef)) and not top:
+                    continue
+                if isinstance(c, (ast.For, ast.While)):
+                    loops.append(c)
+                visit(c, False)
+
+        visit(tree.body[0], True)
+        if ordinal >= len(loops):
+            return  # the loop is gone: nothing to cut, the harness observes the difference
+        line = f.__code__.co_firstlineno + loops[ordinal].lineno - 1
+        self._cut = (f.__code__, line)
+
+    def _run_with_cut(self, f, args, kwargs):
+        code, line = self._cut
+        self._cut = None
+        hits = {}
+
+        def local(frame, event, arg):
+            if event == "line" and frame.f_lineno == line:
+                hits[id(frame)] = hits.get(id(frame), 0) + 1
+                if hits[id(frame)] >= 2:
+                    raise _NativeCut()
+            return local
+
+        def tracer(frame, event, arg):
+            if frame.f_code is code:
+                return local
+            return tracer
+
+        sys.settrace(tracer)
+        try:
+            return f(*args, **kwargs)
+        finally:
+            sys.settrace(None)
+
     def outcome(self, f, *args, **kwargs):
         try:
+            if self._cut is not None:
+                return NativeOutcome("ret", value=self._run_with_cut(f, args, kwargs))
             return NativeOutcome("ret", value=f(*args, **kwargs))
+        except _NativeCut:
+            return NativeOutcome("cut")
         except BaseException as exc:  # noqa: BLE001 - the harness compares the class
             if isinstance(exc, (KeyboardInterrupt, SystemExit, ReplayInvalid)):
                 raise
@@ -215,6 +311,205 @@ def main(argv):
         return 4
     return 5
 
+
+
+
+# ======================================================================================
+# bounded stand-in: the same harness on generated concrete inputs (never counted as proof)
+
+
+class _Discard(Exception):
+    pass
+
+
+class GenVC(NativeVC):
+    """harness API that draws inputs (boundary-biased random); records them as a model"""
+
+    def __init__(self, rng):
+        super().__init__({})
+        self.rng = rng
+        self.pool = {}
+
+    def _rec(self, name, v):
+        self.model[name] = v
+        return v
+
+    def int(self, name, lo=None, hi=None):
+        r = self.rng
+        if lo is None and hi is None:
+            lo, hi = -(1 << 40), 1 << 40
+        elif lo is None:
+            lo = hi - (1 << 40)
+        elif hi is None:
+            hi = lo + (1 << 40)
+        cands = [lo, hi, lo + 1, hi - 1, (lo + hi) // 2]
+        for w in (1, 2, 15, 16, 17, 255, 256, 0x7FFF, 0xFFFE, 0xFFFF, 0x10000, 0xFFFFFE, 0xFFFFFF, 0x1000000, 0xFFFFFFFE, 0xFFFFFFFF):
+            if lo <= w <= hi:
+                cands.append(w)
+        k = r.random()
+        if k < 0.5:
+            v = r.choice(cands)
+        elif k < 0.8:
+            v = r.randint(lo, min(hi, lo + 20))
+        else:
+            v = r.randint(lo, hi)
+        return self._rec(name, max(lo, min(hi, v)))
+
+    def bool(self, name):
+        return self._rec(name, self.rng.random() < 0.5)
+
+    def real(self, name, lo=None, hi=None):
+        lo = 0.0 if lo is None else lo
+        hi = lo + 10.0 if hi is None else hi
+        return self._rec(name, self.rng.choice([lo, hi, (lo + hi) / 2, self.rng.uniform(lo, hi)]))
+
+    def choice(self, name, options):
+        options = list(options)
+        k = self.rng.randrange(len(options))
+        self._rec(name, k)
+        return options[k]
+
+    def _someip(self):
+        r = self.rng
+        n = r.choice([0, 0, 1, 2, 7, 8, 9, 40])
+        payload = bytes(r.randrange(256) for _ in range(n))
+        mt = r.choice([0, 1, 2, 0x40, 0x41, 0x42, 0x80, 0x81, 0xC0, 0xC1])
+        rc = r.randrange(11)
+        sid = r.choice([0, 1, 0xFF, 0x100, 0xFFFF, r.randrange(65536)])
+        hdr = sid.to_bytes(2, "big") + r.randrange(65536).to_bytes(2, "big") + (n + 8).to_bytes(4, "big")
+        hdr += r.randrange(65536).to_bytes(2, "big") + r.randrange(65536).to_bytes(2, "big") + bytes([1, r.randrange(256), mt, rc])
+        return hdr + payload
+
+    def bytes(self, name, minlen=0, maxlen=None, native_from=None, hint=None):
+        r = self.rng
+        if hint == "someip*" and r.random() < 0.8:
+            b = b"".join(self._someip() for _ in range(r.choice([1, 1, 2, 3])))
+            k = r.random()
+            if k < 0.2:
+                b += bytes(r.randrange(256) for _ in range(r.randrange(1, 20)))
+            elif k < 0.3 and b:
+                ba = bytearray(b)
+                ba[r.randrange(len(ba))] ^= 1 << r.randrange(8)
+                b = bytes(ba)
+        else:
+            hi = maxlen if maxlen is not None else minlen + r.choice([0, 1, 2, 3, 8, 15, 16, 17, 40, 300])
+            n = r.randint(minlen, max(minlen, hi))
+            b = bytes(r.choice([0, 0xFF, r.randrange(256)]) for _ in range(n))
+        self.model[name] = b.hex()
+        return b
+
+    def bytes_fixed(self, name, n):
+        b = bytes(self.rng.randrange(256) for _ in range(n))
+        self.model[name] = b.hex()
+        return b
+
+    def _ident(self, tag):
+        return "Obj!val!%d" % self.rng.randrange(3)
+
+    def opaque(self, name, tag="obj"):
+        ident = self._ident(tag)
+        self.model[name] = ident
+        return self._mk_opaque(tag, ident)
+
+    def opaque_seq(self, name, tag="obj", maxlen=None):
+        n = self.rng.choice([0, 0, 1, 2, 3])
+        ids = [self._ident(tag) for _ in range(n)]
+        self.model[name] = ids
+        return tuple(self._mk_opaque(tag, i) for i in ids)
+
+    def intset(self, name, probe=None):
+        out = set()
+        for p in probe or []:
+            if self.rng.random() < 0.6:
+                out.add(int(p))
+        for _ in range(self.rng.randrange(3)):
+            out.add(self.rng.randrange(0x10000))
+        self.model[name] = sorted(out)
+        return frozenset(out)
+
+    def _gen_json(self, d):
+        r = self.rng
+        if d == "int":
+            return r.choice([0, 1, 2, 0xFFFE, 0xFFFF, r.randrange(0x10000)])
+        if d == "bool":
+            return r.random() < 0.5
+        if d == "none":
+            return None
+        if isinstance(d, str) and d.startswith("obj"):
+            return self._ident(d)
+        if d[0] == "tuple":
+            return [self._gen_json(s) for s in d[1:]]
+        if d[0] == "opt":
+            return None if r.random() < 0.3 else self._gen_json(d[1])
+        if d[0] == "dc":
+            return [self._gen_json(s) for _, s in d[2]]
+        raise ReplayInvalid(f"bad descriptor {d!r}")
+
+    def map(self, name, key=None, val=None, default=None, inv=None):
+        pairs = []
+        seen = set()
+        for _ in range(self.rng.choice([0, 1, 2, 4])):
+            for _try in range(20):
+                kj, vj = self._gen_json(key), self._gen_json(val)
+                if repr(kj) in seen:
+                    continue
+                if inv is None or inv(self._from_json(val, vj)):
+                    seen.add(repr(kj))
+                    pairs.append([kj, vj])
+                    break
+        self.model[name] = pairs
+        return NativeVC.map(self, name, key, val, default, inv)
+
+    def assume(self, c):
+        if not c:
+            raise _Discard()
+
+
+def fuzz(modname, fname, n, seed, budget_s):
+    import random
+    import time
+
+    mod = importlib.import_module(modname)
+    fn = getattr(mod, fname)
+    rng = random.Random(seed)
+    t0 = time.time()
+    runs = discarded = 0
+    distinct = set()
+    for i in range(n):
+        if time.time() - t0 > budget_s:
+            break
+        vc = GenVC(rng)
+        try:
+            fn(vc)
+        except _Discard:
+            discarded += 1
+            continue
+        except ReplayInvalid as exc:
+            return {"verdict": "invalid", "reason": str(exc)}
+        except BaseException as exc:  # noqa: BLE001
+            crashed = "".join(traceback.format_exception_only(type(exc), exc)).strip()
+            vc.results.append(("no-uncaught-exception", False, crashed))
+        runs += 1
+        distinct.add(json.dumps(vc.model, sort_keys=True, default=repr))
+        failed = [r for r in vc.results if not r[1]]
+        if failed:
+            return {
+                "verdict": "confirmed",
+                "model": vc.model,
+                "failed": [{"label": l, "detail": d[:500]} for (l, _, d) in failed],
+                "runs": runs,
+            }
+    return {"verdict": "nothing-found", "runs": runs, "discarded": discarded, "distinct_inputs": len(distinct), "secs": round(time.time() - t0, 2)}
+
+
+def main_fuzz(argv):
+    modname, fname, n, seed, budget = argv[2], argv[3], int(argv[4]), int(argv[5]), float(argv[6])
+    print(json.dumps(fuzz(modname, fname, n, seed, budget), default=repr))
+    return 0
+
+
+if __name__ == "__main__" and len(sys.argv) > 1 and sys.argv[1] == "--fuzz":
+    sys.exit(main_fuzz(sys.argv))
 
 if __name__ == "__main__":
     sys.exit(main(sys.argv))
